@@ -94,3 +94,34 @@ def build_call(v, torch, dim, heads=1, K=6, nq=None, image=False, rng=None):
             st.enter_context(torch.autocast('cpu', dtype=torch.bfloat16))
         return st
     return x, kw, ctx, valid
+
+
+@contextlib.contextmanager
+def adversarial_rng(torch, mode):
+    """Every uniform draw made through torch.rand / rand_like / Tensor.uniform_ / bernoulli returns an EXTREME value of its range (exactly 0.0 for
+    mode 'zeros', the largest float32 below 1 for 'max').  Where the specification says that randomness plays no part (noise dropout 0,
+    temperature 0, evaluation mode), results must be the same as under the ordinary generator; a comparison such as `rand() > p` instead of
+    `bernoulli(p)` differs exactly on such draws, which ordinary sampling meets with probability 2^-24."""
+    u = 0.0 if mode == 'zeros' else 1.0 - 2.0 ** -24
+    o_rand, o_rand_like, o_bern, o_uniform, o_tbern = torch.rand, torch.rand_like, torch.bernoulli, torch.Tensor.uniform_, torch.Tensor.bernoulli_
+
+    def rand(*a, **k):
+        return o_rand(*a, **k).fill_(u)
+
+    def rand_like(t, *a, **k):
+        return o_rand_like(t, *a, **k).fill_(u)
+
+    def bernoulli(inp, *a, **k):
+        return (torch.full_like(inp, u) < inp).to(inp.dtype)
+
+    def uniform_(self, a=0.0, b=1.0, **k):
+        return self.fill_(a + (b - a) * u)
+
+    def bernoulli_(self, p=0.5, **k):
+        pt = p if isinstance(p, torch.Tensor) else torch.full_like(self, float(p), dtype=torch.float32)
+        return self.copy_((torch.full_like(pt, u) < pt).to(self.dtype))
+    torch.rand, torch.rand_like, torch.bernoulli, torch.Tensor.uniform_, torch.Tensor.bernoulli_ = rand, rand_like, bernoulli, uniform_, bernoulli_
+    try:
+        yield
+    finally:
+        torch.rand, torch.rand_like, torch.bernoulli, torch.Tensor.uniform_, torch.Tensor.bernoulli_ = o_rand, o_rand_like, o_bern, o_uniform, o_tbern
